@@ -267,6 +267,9 @@ def ArcInnerRef(cell):
 def arc_clone(ex, args, callee):
     a = ex.deref_all(args[0])
     inner = a.cell.v
+    if getattr(ex, 'oracle', False):
+        ex.ops.append({'kind': 'arc_inc', 'out': None, 'label': inner.label})
+        return a
     if not isinstance(inner, ArcInner):
         raise Unsupported('clone of dropped Arc')
     a.cell.v = ArcInner(inner.value, inner.strong + 1, inner.label)
@@ -452,7 +455,7 @@ def iterator_next(ex, args, callee):
 @stub('<* as IntoIterator>::into_iter')
 def into_iter(ex, args, callee):
     v = args[0]
-    if isinstance(v, Native) and v.rty in ('SliceIter', 'Enumerate', 'Map', 'VecIntoIter'):
+    if isinstance(v, Native) and v.rty in ('SliceIter', 'Enumerate', 'Map', 'VecIntoIter', 'QIter'):
         return v
     if isinstance(v, Vec):
         return Native('VecIntoIter', (v.elems, 0))
@@ -1404,3 +1407,28 @@ def int_try_from(ex, args, callee):
 @stub('<Option as FromResidual>::from_residual')
 def option_from_residual(ex, args, callee):
     return NONE
+
+
+@stub('<Option as Default>::default')
+def option_default(ex, args, callee):
+    return NONE
+
+
+@stub('<bool as Default>::default')
+def bool_default(ex, args, callee):
+    return FALSE
+
+
+@stub('<usize as Default>::default')
+def usize_default(ex, args, callee):
+    return mk_int(0, 'usize')
+
+
+@stub('<String as Default>::default')
+def string_default(ex, args, callee):
+    return Str((), 'String')
+
+
+@stub('<Vec as Default>::default')
+def vec_default(ex, args, callee):
+    return Vec((), '')
